@@ -314,104 +314,135 @@ def full_index_over(k, M, ev=None):
     return False
 
 
-def rule_model_jac(F, ev, R, config, rule="R-MODEL-JAC"):
-    """J = [Φ | (∂_idx Φ · c)_idx]: left block copied to columns idx, right block to idx + |left|
-    (decided on the column writes the helper performs, in loop or iterator form)"""
-    import effects as fx
+def stats_jacobian(F, ev):
+    """the unweighted model-function Jacobian J the statistics are built from: the matrix that the weights multiply
+    inside the inverted normal matrix of the covariance. Returns (ctor body, env, fields, stmt, args, J term)."""
+    from rules_panic import nosite
+    sr = stats_roles(F, ev)
     b, env, f, s, sbi = ctor_fields(F, ev)
     a = args_by_type(b)
-    cands = find_model_jacobian(F, ev, b, env, a["model"])
-    if len(cands) != 1:
-        R.bad(rule, config, b.key, "anchor-missing", "model-function Jacobian helper not identified (%d candidates)" % len(cands), b.j["span"])
-        return
-    jbi, jt, jb = cands[0]
-    jenv = Env(jb)
-    model = ("param", jb.key, 1)
-    cvec = ("param", jb.key, 2)
-    av = [ev.operand(env, x, (jbi, None)) for x in jt["args"]]
-    okargs = av[0] == a["model"] and av[1] in a.get("mats", [])
-    R.add(rule, config, b.key, "J(model, coefficients)", okargs, "" if okargs else "Jacobian helper called with `%s`" % [short(x)[:40] for x in av], jt.get("span"))
-    effs = list(fx.iteration_effects(ev, jenv))
-    writes = fx.column_writes(effs)
+    cov = f[sr["cov"]]
+    invs = [x for x in walk(cov) if x[0] == "call" and len(x) == 5 and x[1].rsplit("::", 1)[-1] in ("try_inverse", "pseudo_inverse", "cholesky", "lu", "qr", "try_inverse_mut")]
+    Js = []
+    for inv in invs[:1]:
+        for x in walk(inv[3][0]):
+            if x[0] == "call" and len(x) == 5 and x[1] == "std::ops::Mul::mul" and x[2] == ADT_WEIGHTS and len(x[3]) == 2 and x[3][0] == a.get("weights"):
+                if not any(nosite(x[3][1]) == nosite(y) for y in Js):
+                    Js.append(x[3][1])
+    if len(Js) != 1:
+        raise AnchorMissing("model-function Jacobian not identified: %d different matrices are weighted inside the inverted normal matrix" % len(Js))
+    return b, env, f, s, a, Js[0]
+
+
+def rule_model_jac(F, ev, R, config, rule="R-MODEL-JAC"):
+    """J = [Φ | (∂_idx Φ · c)_idx]: left block copied to columns idx, right block to idx + |left| — decided on the
+    canonical column writes (tab.py) of the constructor with all helpers inlined: where the code lives (one helper,
+    several, none) and whether it loops by index, by iterator or by enumerate does not matter"""
+    import effects as fx
+    import tab
     from rules_panic import nosite
+    try:
+        b, env, f, s, a, J = stats_jacobian(F, ev)
+    except AnchorMissing as ex:
+        R.bad(rule, config, "-", "anchor-missing", str(ex))
+        return
+    model = a["model"]
+    cn = tab.Canon(ev)
+    effs = list(fx.iteration_effects(ev, env))
+    writes = tab.column_writes(cn, effs)
+    CAT = nosite(cn.container(J))
     evl = lambda t: t[0] == "payload" and is_call(t[1], TRAIT_MODEL + "::eval") and t[1][3] == (model,)
+    cat_w = [w for w in writes if nosite(w.D) == CAT]
+    left = right = None
+    for w in cat_w:
+        v = w.val
+        if v[0] != "col":
+            continue
+        k, sk = w.idx[0], v[2]
+        if sk[0] != "iv":
+            continue
+        if k == sk:
+            left = (w, v[1], sk)
+        else:
+            off = tab.nlin(cn, ("bin", "Sub", k, sk))
+            if off is not None and sk not in off:
+                right = (w, v[1], sk, off)
     nl_ok = left_ok = right_ok = False
-    nl_alloc = cat_alloc = left_src = right_src = None
-    # 1. the nonlinear block: column idx ← ∂_idx Φ · c
-    for M, k, val, e in writes:
-        if val[0] == "call" and val[1] == "std::ops::Mul::mul" and len(val[3]) == 2:
-            d, c = val[3]
-            d0 = ok_of(d)
-            if d0 is not None and is_call(d0, TRAIT_MODEL + "::eval_partial_deriv"):
-                nl_alloc = M
-                nl_ok = d0[3][0] == model and d0[3][1] == k and c == cvec and full_index_over(k, M)
-    # 2. the concatenation
-    for M, k, val, e in writes:
-        cs = column_source(val)
-        if not cs:
-            continue
-        SRC, sk = cs
-        if nosite(k) == nosite(sk) and full_index_over(sk, SRC):
-            left_ok, left_src, cat_alloc = True, SRC, M
-    for M, k, val, e in writes:
-        cs = column_source(val)
-        if not cs or left_src is None:
-            continue
-        SRC, sk = cs
-        if k is not None and k[0] == "bin" and k[1] == "Add":
-            x, y = k[2], k[3]
-            off = y if nosite(x) == nosite(sk) else (x if nosite(y) == nosite(sk) else None)
-            if off is not None and full_index_over(sk, SRC) and M == cat_alloc:
-                o = dimval(off)
-                if o[0] == "call" and o[1].endswith("Matrix::ncols") and nosite(base_alloc(o[3][0])) == nosite(left_src):
-                    right_ok, right_src = True, SRC
-    R.add(rule, config, jb.key, "nonlinear-block: col idx ← ∂_idx Φ · c", nl_ok,
-          "" if nl_ok else "the derivative block is not filled with eval_partial_deriv(model, idx)·c at column idx", jb.j["span"])
+    nl_alloc = left_src = right_src = None
+    if left:
+        w, SRC, sk = left
+        left_src = SRC
+        left_ok = tab.extent_covers(cn, w, sk, ("ncols", SRC)) and tab.written_each_iteration(cn, w, sk)[0]
+    if right and left_src is not None:
+        w, SRC, sk, off = right
+        right_src = SRC
+        want = tab.nlin(cn, ("ncols", left_src))
+        right_ok = off == want and tab.extent_covers(cn, w, sk, ("ncols", SRC)) and tab.written_each_iteration(cn, w, sk)[0]
+    # the nonlinear block: column idx ← ∂_idx Φ · c, for every idx below |P|
+    cvec = None
+    if right_src is not None:
+        for w in writes:
+            if nosite(w.D) != nosite(right_src):
+                continue
+            v = w.val
+            if v[0] == "call" and v[1] == "std::ops::Mul::mul" and len(v[3]) == 2:
+                d, c = v[3]
+                d0 = ok_of(d)
+                if d0 is not None and is_call(d0, TRAIT_MODEL + "::eval_partial_deriv"):
+                    nl_alloc = w.D
+                    cvec = c
+                    k = w.idx[0]
+                    nl_ok = d0[3][0] == model and d0[3][1] == k and k[0] == "iv" and tab.extent_covers(cn, w, k, ("ncols", w.D))
+    okargs = cvec is not None and cvec in a.get("mats", [])
+    R.add(rule, config, b.key, "J(model, coefficients)", okargs, "" if okargs else "the derivative block is multiplied by `%s`, not by the linear coefficients argument" % (short(cvec)[:60] if cvec else None), s.get("span"))
+    R.add(rule, config, b.key, "nonlinear-block: col idx ← ∂_idx Φ · c", nl_ok,
+          "" if nl_ok else "the derivative block is not filled with eval_partial_deriv(model, idx)·c at column idx for every idx", s.get("span"))
     okalloc = False
-    if nl_alloc is not None and nl_alloc[0] == "call" and len(nl_alloc[3]) >= 2:
-        r, c = dimval(nl_alloc[3][0]), dimval(nl_alloc[3][1])
-        okalloc = is_call(r, TRAIT_MODEL + "::output_len") and is_call(c, TRAIT_MODEL + "::parameter_count")
-    R.add(rule, config, jb.key, "nonlinear-block: |S|×|P|", okalloc, "" if okalloc else "derivative block allocated as `%s`" % (short(nl_alloc)[:120] if nl_alloc else None), jb.j["span"])
-    R.add(rule, config, jb.key, "concat: left block at columns idx", left_ok, "" if left_ok else "left block is not copied column idx → column idx", jb.j["span"])
-    R.add(rule, config, jb.key, "concat: right block at columns idx+|left|", right_ok, "" if right_ok else "right block is not copied column idx → column idx + ncols(left)", jb.j["span"])
+    dims = tab.alloc_dims(nl_alloc) if nl_alloc is not None else None
+    if dims is not None and dims[1] is not None:
+        okalloc = is_call(dims[0], TRAIT_MODEL + "::output_len") and is_call(dims[1], TRAIT_MODEL + "::parameter_count")
+    R.add(rule, config, b.key, "nonlinear-block: |S|×|P|", okalloc, "" if okalloc else "derivative block allocated as `%s`" % (short(nl_alloc)[:120] if nl_alloc else None), s.get("span"))
+    R.add(rule, config, b.key, "concat: left block at columns idx", left_ok, "" if left_ok else "left block is not copied column idx → column idx (all columns)", s.get("span"))
+    R.add(rule, config, b.key, "concat: right block at columns idx+|left|", right_ok, "" if right_ok else "right block is not copied column idx → column idx + ncols(left) (all columns)", s.get("span"))
     okorder = (left_src is not None and right_src is not None and nl_alloc is not None and evl(left_src) and nosite(right_src) == nosite(nl_alloc))
-    R.add(rule, config, jb.key, "order: [Φ | derivatives]", okorder,
-          "" if okorder else "the concatenation is not [eval(model) | derivative block]: left=%s right=%s" % (short(left_src)[:60] if left_src else None, short(right_src)[:60] if right_src else None), jb.j["span"])
-    # the concatenated matrix has |left| + |right| columns and is what the helper returns
+    R.add(rule, config, b.key, "order: [Φ | derivatives]", okorder,
+          "" if okorder else "the concatenation is not [eval(model) | derivative block]: left=%s right=%s" % (short(left_src)[:60] if left_src else None, short(right_src)[:60] if right_src else None), s.get("span"))
     okcat = False
-    if cat_alloc is not None and cat_alloc[0] == "call" and len(cat_alloc[3]) >= 2:
-        c = dimval(cat_alloc[3][1])
-        if c[0] == "bin" and c[1] == "Add":
-            srcs = set()
-            for x in (c[2], c[3]):
-                if x[0] == "call" and x[1].endswith("Matrix::ncols"):
-                    srcs.add(repr(nosite(base_alloc(x[3][0]))))
-            okcat = left_src is not None and right_src is not None and srcs == {repr(nosite(left_src)), repr(nosite(right_src))}
-    R.add(rule, config, jb.key, "concat: |left|+|right| columns", okcat, "" if okcat else "concatenation allocated as `%s`" % (short(cat_alloc)[:120] if cat_alloc else None), jb.j["span"])
+    cd = tab.alloc_dims(cn.container(J))
+    if cd is not None and cd[1] is not None and left_src is not None and right_src is not None:
+        okcat = tab.nlin(cn, cd[1]) == tab.nlin(cn, ("bin", "Add", ("ncols", left_src), ("ncols", right_src)))
+    R.add(rule, config, b.key, "concat: |left|+|right| columns", okcat, "" if okcat else "concatenation allocated as `%s`" % short(cn.container(J))[:120], s.get("span"))
     R.floor(rule, config, 7, "seven clauses of the model-function Jacobian")
 
 
 def rule_covariance(F, ev_unused, R, config, rule="R-COVARIANCE"):
-    F_ = F
-    sr0 = stats_roles(F, Eval(F, opaque=[k for k in F.bodies if " as std::ops::Mul<" in k]))
-    b0, env0, f0, s0, _ = ctor_fields(F, Eval(F, opaque=[k for k in F.bodies if " as std::ops::Mul<" in k]))
-    a = args_by_type(b0)
-    cands = find_model_jacobian(F, None, b0, env0, a["model"])
-    if len(cands) != 1:
-        R.bad(rule, config, b0.key, "anchor-missing", "Jacobian helper not identified")
+    from rules_panic import nosite
+    ev = Eval(F, opaque=[k for k in F.bodies if " as std::ops::Mul<" in k])
+    sr0 = stats_roles(F, ev)
+    try:
+        b, env, f, s, a, J = stats_jacobian(F, ev)
+    except AnchorMissing as ex:
+        R.bad(rule, config, "-", "anchor-missing", str(ex))
         return
-    jkey = cands[0][2].key
-    ev = Eval(F, opaque=[k for k in F.bodies if " as std::ops::Mul<" in k] + [jkey])
-    b, env, f, s, sbi = ctor_fields(F, ev)
     cov = f[sr0["cov"]]
+    Jn = nosite(J)
+    # J is one symbol in the normal form, however it was built (R-MODEL-JAC decides what it is)
+    atomJ = ("atomJ",)
+
+    def sub(t):
+        if isinstance(t, tuple):
+            if nosite(t) == Jn:
+                return atomJ
+            return tuple(sub(x) if isinstance(x, tuple) else x for x in t)
+        return t
     N = nfmod.NF(is_scalar=is_scalar_term)
-    n = N.nf(cov)
+    n = N.nf(sub(cov))
     ok = False
     msg = "covariance has normal form %s" % nfmod.show(n, short)[:300]
     if len(n) == 1:
         (sc, fac), c = list(n.items())[0]
         chi = f[sr0["chi2"]]
-        okc = c == 1 and sc == (("atom", chi),)
+        okc = c == 1 and sc == (("atom", sub(chi)),)
         inv = fac[0][0] if len(fac) == 1 else None
         oki = False
         if inv and inv[0] == "payload" and inv[1][0] == "call" and inv[1][1].endswith("try_inverse"):
@@ -422,9 +453,7 @@ def rule_covariance(F, ev_unused, R, config, rule="R-COVARIANCE"):
                 if c2 == 1 and not s2 and len(f2) == 4:
                     (j1, t1), (w1, _), (w2, _), (j2, t2) = f2
                     Wt = ("W", a["weights"])
-                    isJ = j1 == j2 and t1 and not t2 and j1[0] == "payload" and j1[1][0] == "call" and j1[1][1] == jkey.replace("<", "<") or False
-                    isJ = j1 == j2 and t1 and not t2 and j1[0] == "payload" and j1[1][0] == "call" and j1[1][3][0] == a["model"]
-                    oki = isJ and w1 == Wt and w2 == Wt
+                    oki = j1 == j2 == atomJ and t1 and not t2 and w1 == Wt and w2 == Wt
             if not oki:
                 msg = "the inverted matrix is `%s`, expected (W·J)ᵀ(W·J)" % nfmod.show(nx, short)[:300]
         elif inv:
@@ -639,11 +668,17 @@ def rule_band(F, ev, R, config, rule="R-BAND"):
     if len(bs) != 1:
         R.bad(rule, config, "-", "anchor-missing", "confidence_band_radius")
         return
-    b = bs[0]
+    # the method with its private non-bool helpers spliced in (the quantile may be computed in a helper); bool-valued
+    # helpers (a predicate `is_valid_probability`) stay calls and are expanded as formulas (logic.py)
+    import inline
+    import logic
+    boolfns = [k for k, x in F.bodies.items() if x.kind != "Closure" and x.j.get("output") == "bool"]
+    b = inline.inlined(F, bs[0], no_inline=set(default_opaque(F)) | set(boolfns))
+    evb = Eval(F, opaque=set(ev.opaque) | set(boolfns))
     env = Env(b)
     me = ("param", b.key, 1)
     p = ("param", b.key, 2)
-    g = Guards(ev, b, env)
+    g = Guards(evb, b, env)
     ppf = None
     for bi, t in b.calls():
         if "fn" in t and "StudentsT" in t["fn"]["path"] and t["fn"]["name"] == "ppf":
@@ -654,33 +689,25 @@ def rule_band(F, ev, R, config, rule="R-BAND"):
     pbi, pt = ppf
     q = ev.operand(env, pt["args"][0], (pbi, None))
     nu = ev.operand(env, pt["args"][1], (pbi, None))
-    # --- precondition table
-    rels, raw = g.relations_at(pbi)
-    zero_one = {}
-    for c in F.consts.values():
-        pass
-    have = {"finite": False, ">0": False, "<1": False}
-    edges_false = []
-    for term, truth, sw in raw:
-        if not isinstance(truth, bool):
-            continue
-        t = term
-        neg = False
-        while t[0] == "un" and t[1] == "Not":
-            t, neg = t[2], not neg
-        val = truth != neg
-        if t[0] == "call" and t[1].endswith("::is_finite") and t[3] == (p,) and val:
-            have["finite"] = True
-            edges_false.append(g.bool_edges(sw, neg))
-        r = canon_rel(term, truth)
-        if r and r[0] == "Lt":
-            lo, hi = r[1], r[2]
-            if hi == p and lo[0] == "constitem" and lo[1].endswith("::ZERO"):
-                have[">0"] = True
-                edges_false.append(g.bool_edges(sw, not truth))
-            if lo == p and hi[0] == "constitem" and hi[1].endswith("::ONE"):
-                have["<1"] = True
-                edges_false.append(g.bool_edges(sw, not truth))
+    # --- precondition table, on guard formulas: finite(p) ∧ 0 < p ∧ p < 1 hold wherever the quantile is computed
+    L = logic.Logic(evb)
+    conds = L.conditions_at(b, env, pbi)
+
+    def conj(pred):
+        st = list(conds)
+        while st:
+            f = st.pop()
+            if pred(f):
+                return True
+            if f[0] == "and":
+                st.extend(f[1])
+        return False
+    isconst = lambda x, nm: x[0] == "constitem" and x[1].endswith("::" + nm)
+    have = {
+        "finite": conj(lambda f: f[0] == "atom" and f[1][0] == "call" and f[1][1].endswith("::is_finite") and f[1][3] == (p,)),
+        ">0": conj(lambda f: f[0] == "rel" and f[1] == "Lt" and isconst(f[2], "ZERO") and f[3] == p),
+        "<1": conj(lambda f: f[0] == "rel" and f[1] == "Lt" and f[2] == p and isconst(f[3], "ONE")),
+    }
     for k, v in have.items():
         R.add(rule, config, b.key, "continues-only-if:p " + k, v, "" if v else "the quantile is computed without requiring probability %s" % k, pt.get("span"))
     # ZERO / ONE constants of the cast trait are 0 and 1
@@ -691,10 +718,18 @@ def rule_band(F, ev, R, config, rule="R-BAND"):
         if key.endswith("CastF64>::ONE"):
             ok = c.get("val") in (4607182418800017408, 1065353216)
             R.add(rule, config, key, "ONE=1", ok, "" if ok else "ONE is not 1.0", c.get("span"))
-    # the documented panic is reached exactly when the precondition fails
+    # the documented panic is reached exactly when the precondition fails: only through the edges, of the tests that
+    # guard the quantile, that do NOT lead to it
     panics = [bi for bi, t in b.calls() if "fn" in t and t["fn"]["path"].startswith("core::panicking::panic") and t["t"] is None]
     if panics and all(have.values()):
-        okp = all(g.holds_on_all_paths_to(pb, edges_false) for pb in panics)
+        comp = []
+        for sw, vals in g.dominating_conditions(pbi):
+            if not contains(sw["term"], lambda x: x == p):
+                continue
+            outs = [(sw["block"], tg) for _, tg in sw["targets"]] + [(sw["block"], sw["otherwise"])]
+            to_ppf = set(e for e in outs if e[1] == pbi or pbi in b.reachable(e[1], avoid=[sw["block"]]))
+            comp.append([e for e in outs if e not in to_ppf])
+        okp = bool(comp) and all(g.holds_on_all_paths_to(pb, comp) for pb in panics)
         R.add(rule, config, b.key, "panic-only-if-precondition-fails", okp, "" if okp else "the precondition panic is reachable with a valid probability", b.j["span"])
     # --- quantile argument (p+1)/2
     x = ("call", "statistics::numeric_traits::CastF64::into_f64", None, (p,), None)
